@@ -1,14 +1,14 @@
 #!/bin/sh
-# usage: tools/try-refactor.sh <ID> — files the behaviour-preserving refactorings a sub-agent wrote for property ID under
+# usage: tools/try-refactor.sh <ID> [offset] — files the behaviour-preserving refactorings a sub-agent wrote for property ID under
 # selftest/neutral/ and runs the property's quick check on a patched scratch copy: every one must end with exit 0.
-ID="$1"
+ID="$1"; OFF="${2:-0}"
 for n in 1 2 3; do
   src=/tmp/refwt/$ID.out/refactor$n.diff
   [ -s "$src" ] || { echo "$ID r$n: no patch"; continue; }
-  dst=/verif/selftest/neutral/$ID-r$n.patch
+  m=$((n+OFF)); dst=/verif/selftest/neutral/$ID-r$m.patch
   cp "$src" "$dst"
-  sed -n "${n}p" /tmp/refwt/$ID.out/notes.txt > /verif/selftest/neutral/$ID-r$n.txt 2>/dev/null
+  sed -n "${n}p" /tmp/refwt/$ID.out/notes.txt > /verif/selftest/neutral/$ID-r$m.txt 2>/dev/null
   res=$(/verif/tools/mutant.sh "$dst" "$ID" 2>&1)
-  echo "$ID r$n: $(echo "$res" | grep 'exit=') | $(echo "$res" | grep -c '^VIOLATION') violations, $(echo "$res" | grep -c '^UNDECIDED') undecided $(echo "$res" | grep 'CHECK-ERROR\|FAILED' | head -2 | tr '\n' ' ')"
+  echo "$ID r$m: $(echo "$res" | grep 'exit=') | $(echo "$res" | grep -c '^VIOLATION') violations, $(echo "$res" | grep -c '^UNDECIDED') undecided $(echo "$res" | grep 'CHECK-ERROR\|FAILED' | head -2 | tr '\n' ' ')"
   echo "$res" | grep '^VIOLATION\|^UNDECIDED' | head -4 | cut -c1-230
 done
